@@ -70,6 +70,9 @@ theorem copy_sound : CopyWrite.sys.Sound where
     intro c f w hi
     cases w <;> simp [sys] at hi
     rfl
+  implies_ok := by
+    intro c g g' _ h
+    simp [sys] at h
 
 /-- every copying function of nixio, as generated from the source, obeys the discipline -/
 theorem copy_functions_safe : ∀ p ∈ Nix.Generated.CopyOrder.all, safe CopyWrite.sys p.2 = true := by decide
